@@ -1,0 +1,21 @@
+//go:build verif
+
+package registry
+
+// Contracts checked by /verif (govc). Comment-only file: it adds no code.
+
+//@ ghost func wantTagC(v string) string = ite(v == "", "*", v)
+//@ ghost func okTag(c string, t string) bool = parses(t) && sat(c, t)
+//@ ghost func tagsSortedDesc(tags []string) bool = forall a, b int :: 0 <= a && a < b && b < len(tags) && parses(tags[a]) && parses(tags[b]) ==> rank(tags[a]) >= rank(tags[b])
+
+//@ func GetTagMatchingVersionOrConstraint
+//@   props C18
+//@   requires tagsSortedDesc(tags)
+//@   ensures [member] err == nil ==> exists j int :: 0 <= j && j < len(tags) && result == tags[j]
+//@   ensures [exact] err == nil && versionString != "" && (exists j int :: 0 <= j && j < len(tags) && tags[j] == versionString) ==> result == versionString
+//@   ensures [best] err == nil && !(versionString != "" && (exists j int :: 0 <= j && j < len(tags) && tags[j] == versionString)) ==> okTag(wantTagC(versionString), result) && (forall j int :: 0 <= j && j < len(tags) && okTag(wantTagC(versionString), tags[j]) ==> rank(tags[j]) <= rank(result))
+//@   ensures [none] err != nil && parsesC(wantTagC(versionString)) ==> forall j int :: 0 <= j && j < len(tags) ==> !(versionString != "" && tags[j] == versionString) && !okTag(wantTagC(versionString), tags[j])
+//@   loop 1 invariant forall j int :: 0 <= j && j < #iter ==> tags[j] != versionString
+//@   loop 2 invariant forall j int :: 0 <= j && j < #iter ==> !okTag(wantTagC(versionString), tags[j])
+//@   loop 2 invariant constraint != nil && consOf(*constraint) == wantTagC(versionString)
+//@   loop 2 invariant versionString != "" ==> forall j int :: 0 <= j && j < len(tags) ==> tags[j] != versionString
